@@ -3377,7 +3377,7 @@ int EGLPNUM_TYPENAME_ILLlib_rownames (
 	qslp = lp->O;
 	nrows = qslp->nrows;
 
-	if (qslp->rownames == 0)
+	if (qslp->rownames == 0 && nrows > 0)
 	{
 		QSlog("LP does not have rownames assigned");
 		rval = 1;
@@ -3473,7 +3473,7 @@ int EGLPNUM_TYPENAME_ILLlib_colnames (
 	qslp = lp->O;
 	nstruct = qslp->nstruct;
 
-	if (qslp->colnames == 0)
+	if (qslp->colnames == 0 && nstruct > 0)
 	{
 		QSlog("LP does not have colnames assigned");
 		rval = 1;
